@@ -7,7 +7,8 @@ import os
 class SimOS:
     """Stand-in for the `os` module as seen by zope.testrunner.find."""
 
-    def __init__(self, rng, unlink_faults=None, shuffle=True, concurrent=None, orphans=()):
+    def __init__(self, rng, unlink_faults=None, shuffle=True, concurrent=None, orphans=(),
+                 vanish=None):
         self._rng = rng
         self._faults = dict(unlink_faults or {})   # n-th unlink -> exception name
         # a concurrent writer (code generator, the tests of another runner): just before the
@@ -22,16 +23,40 @@ class SimOS:
         self.fault_paths = []    # paths whose unlink was made to fail
         self.unlink_attempts = 0
         self.walks = 0
+        # a directory that a concurrent process removes after its parent was listed and before
+        # the walk enters it (a pure timing race: legal at any moment)
+        self._vanish = vanish
+        self.vanished = False
         self.path = os.path
         self.sep = os.sep
 
     def walk(self, top, *a, **kw):
         self.walks += 1
         for dirpath, dirs, files in os.walk(top, *a, **kw):
+            if self._vanish and not self.vanished and \
+                    any(os.path.join(dirpath, d) == self._vanish for d in dirs):
+                self._remove_vanishing()
             if self._shuffle:
                 self._rng.shuffle(dirs)
                 self._rng.shuffle(files)
             yield dirpath, dirs, files     # the very lists os.walk prunes on
+
+    def _remove_vanishing(self):
+        import shutil
+        if os.path.isdir(self._vanish) and not os.path.islink(self._vanish):
+            shutil.rmtree(self._vanish)
+            self.vanished = True
+
+    def scandir(self, path='.'):
+        # (walkers built on scandir/listdir meet the same race when they enter the directory)
+        if self._vanish and not self.vanished and os.path.abspath(str(path)) == self._vanish:
+            self._remove_vanishing()
+        return os.scandir(path)
+
+    def listdir(self, path='.'):
+        if self._vanish and not self.vanished and os.path.abspath(str(path)) == self._vanish:
+            self._remove_vanishing()
+        return os.listdir(path)
 
     def _concurrent_write(self, current):
         here = os.path.realpath(os.path.dirname(current))
